@@ -421,6 +421,18 @@ func gen(seed int64, n int, tier string) []interface{} {
 			}
 			m.Body = append(m.Body[:pos], append([]javagen.Stmt{st}, m.Body[pos:]...)...)
 		}
+		// a line mate: a one-line method that calls the target stands on the SAME line, to the left of the target's
+		// declaration (`void lineMate() { target(); } void target() { .. }`): the declaration is rewritten before the call
+		if r.Intn(6) == 0 {
+			ms := p.Files[t.fi].Unit.Members
+			call := callOn("none", "", old)
+			mate := javagen.Member{Kind: "method", Name: "lineMate", Type: "void", Mods: []string{"public"},
+				Body: []javagen.Stmt{{K: "expr", E: &call}}, OneLine: true}
+			ms[t.mi].SameLine, ms[t.mi].OneLine = true, true
+			ms = append(ms[:t.mi], append([]javagen.Member{mate}, ms[t.mi:]...)...)
+			p.Files[t.fi].Unit.Members = ms
+			tf = &p.Files[t.fi]
+		}
 		// a twin: a class of the same simple name in another package that declares the same method, called through an
 		// import of the twin from a third class - those calls belong to the twin and must stay (the model tells them apart
 		// by package only)
